@@ -15,6 +15,9 @@ def run(m, tier):
     for f in r4.findings:
         f.rule = "C01.R11"
     results.append(r4)
+    from rules import guard_rules
+    results.append(guard_rules.delimiter_offset_rule(m, "C01.R13"))
+    results.append(guard_rules.keyword_prefix_rule(m, "C01.R14"))
     from rules import optional_rules
     results.append(optional_rules.optional_rule(m, "C01.R12"))
     from rules import C02
